@@ -14,6 +14,11 @@ import (
 // call arguments and follows only the container operand of index/lookup
 // expressions: "is this value read out of <pred>?".
 func containerReaches(v ssa.Value, pred func(ssa.Value) bool) bool {
+	return containerReachesOn(nil, v, pred)
+}
+
+// containerReachesOn is containerReaches along an inlined path: the parameter of an inlined helper is the argument bound to it.
+func containerReachesOn(p *core.Path, v ssa.Value, pred func(ssa.Value) bool) bool {
 	seen := map[ssa.Value]bool{}
 	var walk func(v ssa.Value, d int) bool
 	walk = func(v ssa.Value, d int) bool {
@@ -46,6 +51,11 @@ func containerReaches(v ssa.Value, pred func(ssa.Value) bool) bool {
 			}
 			return false
 		case *ssa.Parameter:
+			if p != nil {
+				if r := p.Resolve(x); r != ssa.Value(x) {
+					return walk(r, d+1)
+				}
+			}
 			return false
 		}
 		if in, ok := v.(ssa.Instruction); ok {
@@ -112,7 +122,12 @@ func (c *Ctx) mergeRoutines(d *dstate) []*mergeRoutine {
 
 // isRemote: v is read out of the routine's payload parameter (a slice of entry pointers) or, in a closure, out of a captured entry.
 func (d *dstate) isRemoteValue(fn *ssa.Function, v ssa.Value) bool {
-	return containerReaches(v, func(x ssa.Value) bool {
+	return d.isRemoteValueOn(nil, fn, v)
+}
+
+// isRemoteValueOn is isRemoteValue along an inlined path (helper parameters are seen through).
+func (d *dstate) isRemoteValueOn(p *core.Path, fn *ssa.Function, v ssa.Value) bool {
+	return containerReachesOn(p, v, func(x ssa.Value) bool {
 		switch y := x.(type) {
 		case *ssa.Parameter:
 			if y.Parent() != fn {
@@ -270,9 +285,9 @@ func (c *Ctx) ruleMergeTable(id string, d *dstate) {
 					switch {
 					case cl.Is(d.isOutdated):
 						outd, outdKnown = cd.Val, true
-					case cl.Is(d.isAdded) && d.isRemoteValue(f, p.Resolve(cv.Call.Args[0])):
+					case cl.Is(d.isAdded) && d.isRemoteValueOn(p, f, p.Resolve(cv.Call.Args[0])):
 						added, addedKnown = cd.Val, true
-					case cl.Is(d.isRemoved) && d.isRemoteValue(f, p.Resolve(cv.Call.Args[0])):
+					case cl.Is(d.isRemoved) && d.isRemoteValueOn(p, f, p.Resolve(cv.Call.Args[0])):
 						removed, removedKnown = cd.Val, true
 					}
 				}
@@ -284,13 +299,16 @@ func (c *Ctx) ruleMergeTable(id string, d *dstate) {
 							continue
 						}
 						k, isK := constInt(pair[1])
-						if !isK || d.isRemoteValue(f, lc.Call.Args[0]) {
+						larg := p.Resolve(core.Strip(lc.Call.Args[0])) // seen through a helper's parameter
+						if !isK || d.isRemoteValueOn(p, f, larg) {
 							continue
 						}
-						if sl, ok := lc.Call.Args[0].Type().Underlying().(*types.Slice); !ok || !d.isEntryType(sl.Elem()) {
+						if sl, ok := larg.Type().Underlying().(*types.Slice); !ok || !d.isEntryType(sl.Elem()) {
 							continue
 						}
-						if _, fromCall := core.Strip(lc.Call.Args[0]).(*ssa.Extract); !fromCall {
+						switch core.Strip(larg).(type) {
+						case *ssa.Extract, *ssa.Call:
+						default:
 							continue
 						}
 						switch {
